@@ -198,6 +198,8 @@ pub fn execute(model: &Model, sim_seed: u64) -> Outcome {
         let a: u64 = rt.random();
         let b: u32 = rt.rng_sample(Uniform::new(0u32, 1_000_000).unwrap());
         tr(format!("driver drew {a} {b}"));
+        // what driver code sees of the clock between build and run
+        tr(format!("driver clock {} {}", rt.sim_time().as_nanos(), SimTime::now().as_nanos()));
         match rt.run() {
             Ok((_, t, p)) => format!("ok end={} events={} remaining={}", t.as_nanos(), p.event_count, p.remaining.len()),
             Err(e) => format!("err entries={}", e.len()),
